@@ -406,6 +406,7 @@ impl Decode for HunkHeader {
         header.new_size = size.parse()?;
 
         let s = s.strip_prefix(' ').unwrap_or(s);
+        let s = s.strip_suffix('\n').unwrap_or(s);
         header.text = s.as_bytes().to_vec();
 
         Ok(header)
@@ -503,7 +504,7 @@ impl Encode for Hunk<Modification> {
         // TODO: Remove trailing newlines accurately.
         // `trim_end()` will destroy diff information if the diff has a trailing whitespace on
         // purpose.
-        w.magenta(self.header.from_utf8_lossy().trim_end())?;
+        w.magenta(self.header.from_utf8_lossy().trim_end_matches('\n'))?;
         for l in &self.lines {
             l.encode(w)?;
         }
